@@ -1178,6 +1178,11 @@ class SVG:
             for el in self._iter_nested_svgs(svg)
         )
 
+        # pick the id for this viewport's clip while the content (which may hold
+        # clips of nested viewports) is still attached to the tree and visible to
+        # the search for a free id
+        clip_path_id = self._new_id("nested-svg-viewport-%d")
+
         g = etree.Element(f"{{{svgns()}}}g")
         g.extend(svg)
 
@@ -1207,9 +1212,7 @@ class SVG:
         if overflow != "hidden":
             raise NotImplementedError(f"overflow='{overflow}' is not supported")
 
-        clip_path = etree.Element(
-            f"{{{svgns()}}}clipPath", {"id": self._new_id("nested-svg-viewport-%d")}
-        )
+        clip_path = etree.Element(f"{{{svgns()}}}clipPath", {"id": clip_path_id})
         clip_path.append(to_element(SVGRect(x=x, y=y, width=width, height=height)))
         clipped_g = etree.Element(f"{{{svgns()}}}g")
         clipped_g.attrib["clip-path"] = f"url(#{clip_path.attrib['id']})"
